@@ -1248,4 +1248,59 @@ theorem bitLengthModel_eq (s : List Char) : bitLengthModel s = bitLength s := by
   simp [bitLengthModel, bitLength, BIT_LENGTH_FACTOR, Nat.mul_comm]
 
 
+
+/-! ## the regex text -/
+
+theorem suffix2_append (x : List Char) (a b : Char) :
+    ['.', '*'].isSuffixOf (x ++ [a, b]) = (a == '.' && b == '*') := by
+  apply Bool.eq_iff_iff.mpr
+  rw [List.isSuffixOf_iff_suffix]
+  constructor
+  · rintro ⟨t, ht⟩
+    have := congrArg List.reverse ht
+    simp at this
+    simp only [Bool.and_eq_true, beq_iff_eq]
+    exact ⟨this.2.1.symm, this.1.symm⟩
+  · intro h
+    simp only [Bool.and_eq_true, beq_iff_eq] at h
+    exact ⟨x, by rw [h.1, h.2]⟩
+
+theorem suffix1_ne (x : List Char) (b : Char) (hb : b ≠ '*') :
+    ['.', '*'].isSuffixOf (x ++ [b]) = false := by
+  rw [Bool.eq_false_iff]
+  intro h
+  rw [List.isSuffixOf_iff_suffix] at h
+  obtain ⟨t, ht⟩ := h
+  have := congrArg List.reverse ht
+  simp at this
+  exact hb this.1.symm
+
+/-- the textual test `result.ends_with(".*")` of `regex_like` is true exactly when the last
+translated item is the `.*` of a `%` (a literal `*` is always rendered as `\*`) -/
+theorem render_endsWith_dotStar (pre : List Char) (hpre : pre = [] ∨ pre = ['^']) (items : List RxItem) :
+    ['.', '*'].isSuffixOf (renderBody pre items) = (items.getLast? == some RxItem.star) := by
+  unfold renderBody
+  rcases List.eq_nil_or_concat items with rfl | ⟨init, last, rfl⟩
+  · rcases hpre with rfl | rfl <;> decide
+  · rw [List.concat_eq_append]
+    have hl : (init ++ [last]).getLast? = some last := by simp
+    rw [hl]
+    simp only [List.flatMap_append, List.flatMap_cons, List.flatMap_nil, List.append_nil]
+    rw [← List.append_assoc]
+    cases last with
+    | star => simp only [renderItem]; rw [suffix2_append]; rfl
+    | any => simp only [renderItem]; rw [suffix1_ne _ _ (by decide)]; rfl
+    | lit c =>
+      simp only [renderItem]
+      split
+      · rename_i hm
+        rw [suffix2_append]
+        simp
+      · rename_i hm
+        rw [suffix1_ne]
+        · simp
+        · rintro rfl
+          exact hm (by decide)
+
+
 end ArrowModel.C20
